@@ -267,6 +267,7 @@ std::unique_ptr<ASTNode> clone_ast_node(const ASTNode *node) {
     cloned->is_unsigned = node->is_unsigned;
     cloned->is_function_address = node->is_function_address;
     cloned->function_address_name = node->function_address_name;
+    cloned->reuse_assign_target_indices = node->reuse_assign_target_indices;
 
     // 値・名前
     cloned->int_value = node->int_value;
